@@ -14,7 +14,7 @@
 (* emit behaviours for replay on the real code and is hidden by the VIEW    *)
 (* in the exhaustive run.                                                   *)
 (***************************************************************************)
-EXTENDS Props, AirInterp, ScriptGen, TLC, Json, IOUtils
+EXTENDS Props, AirInterp, SeqSem, ScriptGen, TLC, Json, IOUtils
 
 CONSTANTS MaxRuns, MaxDeliveries, MaxBogus,
           CheckIds        \* the property ids checked on every transition
@@ -85,9 +85,20 @@ Event(p, kind, cur, resSeq) ==
                             ELSE <<>>,
                    rerun |-> [done |-> FALSE], rerun_fresh |-> [done |-> FALSE], fresh |-> [done |-> FALSE], recode |-> [done |-> FALSE] ] ]
 
+\* C16 on the design: for scripts of the sequential fragment, everything the stepping peer ever handed to its host is a
+\* call of the sequential reading, and the trace it returns follows the sequential trace block by block
+MC_Bag(q, key(_)) == LET ks == {key(q[i]) : i \in 1..Len(q)} IN [k \in ks |-> Cardinality({i \in 1..Len(q) : key(q[i]) = k})]
+C16model(t, e) ==
+    InFragment(Script, FALSE) =>
+        LET o == SeqRun(Script, InitPeer) IN
+        ~o.stuck =>
+            /\ BagSubset(MC_Bag(t.issued[e.peer], LAMBDA r : <<e.peer, r.srv, r.fn, r.args>>),
+                         MC_Bag(o.calls, LAMBDA c : <<c.p, c.srv, c.fn, c.args>>))
+            /\ (ReturnsNewData(e.out.code) => FollowsSequential(e.out.data.trace, o.tr))
+
 \* the property ids violated by step e taken from state s to state t (model-level reading of Props)
 Violations(s, t, e) ==
-    {id \in CheckIds \cap {"C02", "C04", "C05", "C06", "C07", "C09", "C10", "C19"} :
+    {id \in CheckIds \cap {"C02", "C04", "C05", "C06", "C07", "C09", "C10", "C11", "C12", "C16", "C19"} :
         ~(CASE id = "C02" -> C02(s, e)
             [] id = "C04" -> C04(s, e)
             [] id = "C05" -> C05(s, t, e) /\ C05answered(s, e)
@@ -95,6 +106,9 @@ Violations(s, t, e) ==
             [] id = "C07" -> C07(s, e)
             [] id = "C09" -> C09(s, e)
             [] id = "C10" -> C10(s, e)
+            [] id = "C11" -> C11order(s, e)
+            [] id = "C12" -> C12(s, e)
+            [] id = "C16" -> C16model(t, e)
             [] id = "C19" -> C19(s, e))}
 
 Take(e, hstep) ==
@@ -145,6 +159,36 @@ NoViolation == viol = {} \/ (PrintT(<<"MODELVIOL", viol, ToJson(hist), sid>>) /\
 
 \* nothing left to do except duplicates: every wanted message delivered once, nothing pending
 Done == Quiescent(st) \/ st.runs >= MaxRuns
+
+\* ---------------------------------------------------------------------------
+\* C08 / C09 on the design: at the end of a behaviour, an observer that merges the last datum of every peer gets the
+\* same knowledge in whatever order they arrive (identical traces modulo senders when no stream is involved), and
+\* that knowledge contains every result any of the data carried
+RECURSIVE ObsFold(_, _, _)
+ObsFold(order, i, acc) ==
+    IF i > Len(order) THEN acc
+    ELSE LET d == st.sent[order[i]][Len(st.sent[order[i]])]
+             r == Interp(Script, "O", InitPeer, acc.data, d, {}) IN
+         ObsFold(order, i + 1, IF r.unsup THEN [acc EXCEPT !.unsup = TRUE]
+                               ELSE IF ReturnsNewData(r.code) THEN [acc EXCEPT !.data = r.data]
+                               ELSE [acc EXCEPT !.bad = TRUE])
+Senders == {p \in Peers : Len(st.sent[p]) > 0}
+RECURSIVE PermsOf(_)
+PermsOf(S) == IF S = {} THEN {<<>>} ELSE UNION {{<<x>> \o p : p \in PermsOf(S \ {x})} : x \in S}
+Convergence ==
+    (("C08" \in CheckIds \/ "C09" \in CheckIds) /\ Done /\ Cardinality(Senders) >= 2 /\ Cardinality(Senders) <= 3) =>
+        LET orders == PermsOf(Senders)
+            first == CHOOSE o \in orders : TRUE
+            res(o) == ObsFold(o, 1, [data |-> EmptyData, unsup |-> FALSE, bad |-> FALSE])
+            r1 == res(first)
+            ok == \A o \in orders :
+                    LET r == res(o) IN
+                    r.unsup \/ r1.unsup \/
+                    /\ ~r.bad
+                    /\ SameKnowledge(r.data.trace, r1.data.trace)
+                    /\ ((~HasStreams(r.data.trace) /\ ~HasStreams(r1.data.trace)) => EquivModuloSenders(r.data.trace, r1.data.trace))
+                    /\ \A p \in Senders : BagSubset(Results(st.sent[p][Len(st.sent[p])].trace), Results(r.data.trace))
+        IN ok \/ (PrintT(<<"MODELVIOL", {"C08"}, ToJson(hist), sid>>) /\ FALSE)
 
 \* behaviour emission (run without the VIEW): one line per complete schedule
 EmitSchedules == Done => PrintT(<<"SCHED", ToJson(hist), sid>>)
